@@ -501,6 +501,18 @@ def witness_graphs():
               dict(kind='dec', id=12, rk=[11], rd=[], ri=[1], callable=[],
                    logic=('ctx', ((2003, ('invoke', 11, ((1002, ('num', 5)),))), (2004, ('invoke', 11, ((1, ('num', 7)), (1002, ('num', 5))))),
                                   (2005, ('call', 11, (('num', 7),))), (2006, ('calln', 11, ((1002, ('num', 5)), (1, ('num', 7))), (1, 1002)))), None))])
+    # boxed expressions of one kind in the positions of another: a boxed invocation whose binding formula is a boxed CONTEXT (with and without
+    # a result entry) or another boxed invocation, as decision logic, as knowledge-model body and as the value of a context entry; the kind of the
+    # outer expression must not be taken from what it contains (seeded change C04_g: the parser looked for a context among all descendants)
+    inner = ('ctx', ((2001, ('var', 1)), (2002, ('mul', ('var', 1), ('num', 3)))), None)
+    inner_res = ('ctx', ((2001, ('var', 1)),), ('add', ('var', 2001), ('num', 1)))
+    W.append([dict(kind='input', id=1),
+              dict(kind='bkm', id=2, params=[1001, 1002], body=('ctx', ((2003, ('var', 1001)), (2004, ('var', 1002))), None), rk=[], callable=[]),
+              dict(kind='dec', id=3, rk=[2], rd=[], ri=[1], callable=[], logic=('invoke', 2, ((1001, inner), (1002, ('num', 2))))),
+              dict(kind='dec', id=4, rk=[2], rd=[], ri=[1], callable=[], logic=('invoke', 2, ((1001, inner_res), (1002, ('invoke', 2, ((1001, ('num', 7)), (1002, inner))))))),
+              dict(kind='bkm', id=5, params=[1001], body=('invoke', 2, ((1001, ('ctx', ((2005, ('var', 1001)),), None)), (1002, ('num', 9)))), rk=[2], callable=[]),
+              dict(kind='dec', id=6, rk=[5, 2], rd=[], ri=[1], callable=[],
+                   logic=('ctx', ((2006, ('invoke', 5, ((1001, inner),))), (2001, ('invoke', 2, ((1001, inner_res), (1002, ('var', 1))))), (2002, ('var', 2001))), None))])
     return W
 
 
